@@ -86,8 +86,50 @@ def to_json(v):
     return v
 
 
+def gen_numtext(rng):
+    """a number literal as the grammar writes it: '-'? digits ('.' digits)? ('E' '-'? digits)?  – with up to 15
+    significant digits (the property's domain) or, flagged `open`, up to 40 (serde_json's own precision: compared with
+    the model only)"""
+    long_ = rng.chance(0.2)
+    nd = rng.range(16, 40) if long_ else rng.range(1, 15)
+    digs = str(rng.range(1, 9)) + "".join(str(rng.range(0, 9)) for _ in range(nd - 1))
+    form = rng.pick(["int", "dec", "exp", "decexp"])
+    neg = rng.chance(0.3)
+    if form == "int":
+        t = digs
+    elif form == "dec":
+        k = rng.range(0, len(digs) - 1)
+        t = (digs[:k] or "0") + "." + digs[k:]
+    elif form == "exp":
+        t = digs + "E" + rng.pick(["", "-"]) + str(rng.range(0, 250))
+    else:
+        k = rng.range(0, len(digs) - 1)
+        t = (digs[:k] or "0") + "." + digs[k:] + "E" + rng.pick(["", "-"]) + str(rng.range(0, 250))
+    if neg:
+        t = "-" + t
+    if form == "int":
+        n = int(t)
+        if 0 <= n < 2 ** 64 and not (neg and n == 0):
+            v = n
+        elif -(2 ** 63) <= n < 0:
+            v = n
+        else:
+            v = F.of(float(n))
+    else:
+        x = float(t)
+        if x in (float("inf"), float("-inf")):
+            return gen_numtext(rng)
+        v = F.of(x)
+    e = {"v": to_json(v), "r": None, "m": False}
+    if long_:
+        e["open"] = True
+    return t, e
+
+
 def gen_arg(rng, depth):
-    k = rng.weighted([("lit", 6), ("path", 4), ("missing", 1), ("sub", 2 if depth > 0 else 0)])
+    k = rng.weighted([("lit", 6), ("path", 4), ("missing", 1), ("sub", 2 if depth > 0 else 0), ("num", 2)])
+    if k == "num":
+        return gen_numtext(rng)
     if k == "lit":
         v = gen_lit(rng)
         s = lit_src(rng, v)
@@ -227,9 +269,16 @@ def oracle(case, meta, impl):
         v.append("name")
     got_p = [{"v": p["v"], "r": p["r"], "m": p["m"]} for p in d.get("p", [])]
     exp_p = [{"v": enc_dump(p["v"]), "r": p["r"], "m": p["m"]} for p in exp["p"]]
+    # literals beyond 15 significant digits: "subject to serde_json's own parsing precision" – the value is left open
+    for g, e in zip(got_p, exp["p"]):
+        if e.get("open") and isinstance(g["v"], (int, float)) and not isinstance(g["v"], bool):
+            g["v"] = enc_dump(e["v"])
     if len(got_p) != len(exp_p) or not all(num_eq(a, b) for a, b in zip(got_p, exp_p)):
         v.append("positional arguments: expected %s got %s" % (json.dumps(exp_p)[:300], json.dumps(got_p)[:300]))
     got_h = {k: {"v": p["v"], "r": p["r"], "m": p["m"]} for k, p in d.get("h", {}).items()}
+    for k, e in exp["h"].items():
+        if e.get("open") and k in got_h and isinstance(got_h[k]["v"], (int, float)) and not isinstance(got_h[k]["v"], bool):
+            got_h[k]["v"] = enc_dump(e["v"])
     exp_h = {k: {"v": enc_dump(p["v"]), "r": p["r"], "m": p["m"]} for k, p in exp["h"].items()}
     if not num_eq(got_h, exp_h):
         v.append("hash arguments: expected %s got %s" % (json.dumps(exp_h)[:300], json.dumps(got_h)[:300]))
